@@ -1,4 +1,472 @@
-import OsloModel.Units
+/-
+C10 — string_to_bytes computes the exact byte quantity or raises ValueError;
+QemuImgInfo size fields.
+
+Property theorems only (helpers are `lemma_…` or live in Lemmas/C10.lean).  The
+documented grammar and arithmetic (`Sys`, `specExp`, `Text`, `render`, `Text.num`,
+`Text.den`) are written here by hand; the code's tables enter through
+`OsloModel/Generated/C10.lean` and are tied to the documented ones by
+`s2b_tables_complete` (kernel evaluation over the complete tables).
+-/
+import OsloProofs.Lemmas.C10
 namespace Oslo.Units
-theorem lemma_placeholder : True := trivial
+open Oslo.Generated.C10
+
+/-! ### the documented grammar -/
+
+inductive Sys | iec | si | mixed
+  deriving DecidableEq, Repr
+
+def Sys.key : Sys → List Char
+  | .iec => ['I', 'E', 'C']
+  | .si => ['S', 'I']
+  | .mixed => ['m', 'i', 'x', 'e', 'd']
+
+/-- first letters of the prefixes a system admits (in code-point order, as the translator emits
+    the character class of the compiled regex) -/
+def Sys.letters : Sys → List Char
+  | .iec => ['E', 'G', 'K', 'M', 'P', 'Q', 'R', 'T', 'Y', 'Z']
+  | .si => ['E', 'G', 'M', 'P', 'Q', 'R', 'T', 'Y', 'Z', 'k']
+  | .mixed => ['E', 'G', 'K', 'M', 'P', 'Q', 'R', 'T', 'Y', 'Z', 'k']
+
+/-- whether the binary spelling `Ki`, `Mi`, … is admitted -/
+def Sys.optI : Sys → Bool
+  | .iec => true
+  | .si => false
+  | .mixed => true
+
+/-- the base stored in UNIT_SYSTEM_INFO (mixed: None) -/
+def Sys.tableBase : Sys → Option Nat
+  | .iec => some 1024
+  | .si => some 1000
+  | .mixed => none
+
+/-- every prefix text a system admits -/
+def Sys.prefixes (s : Sys) : List (List Char) :=
+  s.letters.flatMap fun c => if s.optI then [[c], [c, 'i']] else [[c]]
+
+/-- base: 1024 for IEC, 1000 for SI, in mixed mode 1024 for prefixes ending in `i` and 1000 otherwise -/
+def Sys.base (s : Sys) (pfx : List Char) : Nat :=
+  match s with
+  | .iec => 1024
+  | .si => 1000
+  | .mixed => if pfx.getLast? = some 'i' then 1024 else 1000
+
+/-- exponent of a prefix, by its first letter -/
+def specExp : Char → Option Nat
+  | 'k' => some 1 | 'K' => some 1 | 'M' => some 2 | 'G' => some 3 | 'T' => some 4 | 'P' => some 5
+  | 'E' => some 6 | 'Z' => some 7 | 'Y' => some 8 | 'R' => some 9 | 'Q' => some 10
+  | _ => none
+
+/-- `base ^ exponent` of an admitted prefix, 1 without a prefix -/
+def specMult (s : Sys) (pfx : List Char) : Option Nat :=
+  if pfx = [] then some 1 else (pfx.head?.bind specExp).map fun e => s.base pfx ^ e
+
+/-- a text `[sign]number[prefix]unit` and, optionally, the one trailing newline that Python's
+    `$` lets through (known finding N3) -/
+structure Text where
+  sign : Option Bool            -- none, `+` (some false), `-` (some true)
+  ip : List Char                -- integer digits
+  fp : Option (List Char)       -- fraction digits after a dot
+  pfx : List Char
+  unit : UnitText
+  nl : Bool
+
+def signChars : Option Bool → List Char
+  | none => []
+  | some false => ['+']
+  | some true => ['-']
+
+def Text.neg (t : Text) : Bool := t.sign = some true
+
+def render (t : Text) : List Char :=
+  signChars t.sign ++ (t.ip ++ dotFrac t.fp ++ (t.pfx ++ (t.unit.chars ++ nlChars t.nl)))
+
+/-- digits well formed (`\d*\.?\d+`) and prefix admitted by the system (or absent) -/
+def Text.Admitted (s : Sys) (t : Text) : Prop :=
+  NumWF t.ip t.fp ∧ (t.pfx = [] ∨ t.pfx ∈ s.prefixes)
+
+/-- the digits read as a natural number; the magnitude is `±mant / 10^scale` -/
+def Text.mant (t : Text) : Nat := natOfDigits (t.ip ++ fracDigits t.fp)
+def Text.scale (t : Text) : Nat := (fracDigits t.fp).length
+
+/-- exact quantity `num/den`: ±mant · base^exponent / (10^scale · (8 for bit units)) -/
+def Text.num (t : Text) (mult : Nat) : Int := (if t.neg then -1 else 1) * ((t.mant * mult : Nat) : Int)
+def Text.den (t : Text) : Nat := 10 ^ t.scale * unitDiv t.unit.kind
+
+/-- inside binary64: neither the magnitude nor the quantity rounds to infinity, and the
+    magnitude (divided by 8 for bit units) is zero or at least the smallest normal number -/
+def Text.InRange (t : Text) (mult : Nat) : Prop :=
+  isHuge t.mant (10 ^ t.scale) = false ∧ isHuge (t.num mult) t.den = false ∧ isTiny t.mant t.den = false
+
+/-! ### the code's tables against the documented ones -/
+
+/-- **Tables** — for each of the three systems the table entry (base, regex prefix class) is the
+    documented one, and every prefix the regex admits has an exponent in UNIT_PREFIX_EXPONENT
+    (finding D5: `ki` was missing) which, with the base rule, gives the documented multiplier. -/
+theorem s2b_tables_complete (s : Sys) :
+    lookupSys s.key = some (s.tableBase, s.letters, s.optI) ∧
+    ∀ p ∈ s.prefixes, (multiplier s.key s.tableBase p).toOption = specMult s p ∧
+                      (specMult s p).isSome = true := by
+  cases s <;> decide
+
+/-- no other key is a unit system -/
+theorem lemma_lookupSys_some (key : List Char) (x : Option Nat × List Char × Bool)
+    (h : lookupSys key = some x) : ∃ s : Sys, key = s.key ∧ x = (s.tableBase, s.letters, s.optI) := by
+  have h1 := (s2b_tables_complete .iec).1
+  have h2 := (s2b_tables_complete .si).1
+  have h3 := (s2b_tables_complete .mixed).1
+  by_cases k1 : key = Sys.key .iec
+  · subst k1; rw [h1] at h; exact ⟨.iec, rfl, by simpa using h.symm⟩
+  by_cases k2 : key = Sys.key .si
+  · subst k2; rw [h2] at h; exact ⟨.si, rfl, by simpa using h.symm⟩
+  by_cases k3 : key = Sys.key .mixed
+  · subst k3; rw [h3] at h; exact ⟨.mixed, rfl, by simpa using h.symm⟩
+  exfalso
+  simp only [Sys.key] at k1 k2 k3
+  have e1 : (['I', 'E', 'C'] == key) = false := beq_eq_false_iff_ne.mpr (Ne.symm k1)
+  have e2 : (['S', 'I'] == key) = false := beq_eq_false_iff_ne.mpr (Ne.symm k2)
+  have e3 : (['m', 'i', 'x', 'e', 'd'] == key) = false := beq_eq_false_iff_ne.mpr (Ne.symm k3)
+  simp [lookupSys, unitSystemInfo, List.find?, e1, e2, e3] at h
+
+/-! ### the parser on rendered texts -/
+
+def headOk : List Char → Bool
+  | [] => true
+  | c :: _ => !isDigit c && c != '.'
+
+theorem lemma_numEnd_of_headOk (rest : List Char) (h : headOk rest = true) : NumEnd rest := by
+  intro c r hr; subst hr
+  simp [headOk] at h
+  exact ⟨h.1, h.2⟩
+
+/-- what follows the number: prefix (possibly empty), unit, optional newline -/
+def tail (p : List Char) (u : UnitText) (nl : Bool) : List Char := p ++ (u.chars ++ nlChars nl)
+
+/-- finite check over the documented prefixes, the three units, with and without newline -/
+theorem lemma_tail (s : Sys) (p : List Char) (hp : p = [] ∨ p ∈ s.prefixes) (u : UnitText) (nl : Bool) :
+    headOk (tail p u nl) = true ∧
+    parsePrefix s.letters s.optI (tail p u nl) = (p, u.chars ++ nlChars nl) := by
+  have : ∀ p ∈ [] :: s.prefixes, headOk (tail p u nl) = true ∧
+      parsePrefix s.letters s.optI (tail p u nl) = (p, u.chars ++ nlChars nl) := by
+    cases s <;> cases u <;> cases nl <;> decide
+  exact this p (by simpa using hp)
+
+theorem lemma_splitSign_render (sg : Option Bool) (ip : List Char) (fp : Option (List Char))
+    (rest : List Char) (hwf : NumWF ip fp) :
+    splitSign (signChars sg ++ (ip ++ dotFrac fp ++ rest)) = (decide (sg = some true), ip ++ dotFrac fp ++ rest) := by
+  cases sg with
+  | some b => cases b <;> simp [signChars, splitSign]
+  | none =>
+    simp only [signChars, List.nil_append]
+    obtain ⟨hip, hfp⟩ := hwf
+    cases ip with
+    | cons c cs =>
+      have hc : isDigit c = true := hip c (by simp)
+      have h1 : c ≠ '-' := by rintro rfl; revert hc; decide
+      have h2 : c ≠ '+' := by rintro rfl; revert hc; decide
+      simp only [List.cons_append]
+      unfold splitSign
+      split
+      · next heq => simp at heq; exact absurd heq.1 h1
+      · next heq => simp at heq; exact absurd heq.1 h2
+      · simp
+    | nil =>
+      cases fp with
+      | none => simp at hfp
+      | some f => simp [dotFrac, splitSign]
+
+/-- the model on a rendered, admitted text: the parse is the intended one -/
+theorem lemma_s2b_render (s : Sys) (t : Text) (ha : t.Admitted s) (ri : Bool) :
+    stringToBytes s.key (render t) ri =
+      compute s.key s.tableBase ri t.neg t.ip t.fp t.pfx t.unit.kind := by
+  obtain ⟨hwf, hp⟩ := ha
+  obtain ⟨h1, h2⟩ := lemma_tail s t.pfx hp t.unit t.nl
+  have hnum := lemma_parseNumber_render t.ip t.fp (tail t.pfx t.unit t.nl) hwf
+    (lemma_numEnd_of_headOk _ h1)
+  have hs := lemma_splitSign_render t.sign t.ip t.fp (tail t.pfx t.unit t.nl) hwf
+  unfold stringToBytes render
+  rw [(s2b_tables_complete s).1]
+  simp only [tail] at hs hnum h2
+  simp only [hs, hnum, h2, lemma_parseUnit_render, Text.neg]
+
+theorem lemma_toOption_some {ε α : Type} (x : Except ε α) (a : α) (h : x.toOption = some a) : x = .ok a := by
+  cases x <;> simp_all [Except.toOption]
+
+theorem lemma_multiplier (s : Sys) (p : List Char) (hp : p = [] ∨ p ∈ s.prefixes) (mult : Nat)
+    (hm : specMult s p = some mult) : multiplier s.key s.tableBase p = .ok mult := by
+  rcases hp with rfl | hp
+  · simp [specMult] at hm; subst hm; simp [multiplier]
+  · have := ((s2b_tables_complete s).2 p hp).1
+    rw [hm] at this
+    exact lemma_toOption_some _ _ this
+
+/-- the model on a rendered, admitted text is `finish` applied to the documented exact quantity -/
+theorem lemma_s2b_finish (s : Sys) (t : Text) (ha : t.Admitted s) (mult : Nat)
+    (hm : specMult s t.pfx = some mult) (ri : Bool) :
+    stringToBytes s.key (render t) ri =
+      finish ri t.neg t.mant (10 ^ t.scale) (t.num mult) t.den := by
+  rw [lemma_s2b_render s t ha ri]
+  unfold compute
+  rw [lemma_multiplier s t.pfx ha.2 mult hm]
+  rfl
+
+theorem lemma_den_pos (t : Text) : 0 < t.den := by
+  unfold Text.den
+  have : 0 < unitDiv t.unit.kind := by cases t.unit <;> decide
+  exact Nat.mul_pos (Nat.pow_pos (by decide)) this
+
+theorem lemma_ceilDiv (num : Int) (den : Nat) (h : 0 < den) :
+    (den : Int) * (ceilDiv num den - 1) < num ∧ num ≤ (den : Int) * ceilDiv num den := by
+  unfold ceilDiv
+  have hd : (0 : Int) < (den : Int) := by exact_mod_cast h
+  have h1 := Int.ediv_mul_le (-num) (Int.ne_of_gt hd)
+  have h2 := Int.lt_ediv_add_one_mul_self (-num) hd
+  generalize (-num) / (den : Int) = f at *
+  have e1 : (den : Int) * (-f - 1) = -(f * den) - den := by
+    rw [Int.mul_sub, Int.mul_neg, Int.mul_one, Int.mul_comm]
+  have e2 : (den : Int) * (-f) = -(f * den) := by rw [Int.mul_neg, Int.mul_comm]
+  have e3 : (f + 1) * (den : Int) = f * den + den := by rw [Int.add_mul, Int.one_mul]
+  rw [e1, e2]
+  rw [e3] at h2
+  generalize f * (den : Int) = x at *
+  omega
+
+/-! ### the property -/
+
+/-- **Value** — for every unit system, every sign, every digit string `\d*\.?\d+`, every
+    admitted prefix (or none), every unit: the result is the float whose exact value is
+    `±mant · base^exponent / (10^scale · (8 for bit units))`.
+    Partial: proved for quantities inside the binary64 range (`InRange`); outside it Python
+    yields `inf` / a denormal, see `s2b_out_of_range` (known finding N3-float-range).  The text
+    may carry one trailing newline (`nl`), which the code accepts (known finding N3). -/
+theorem s2b_value_partial (s : Sys) (t : Text) (ha : t.Admitted s) (mult : Nat)
+    (hm : specMult s t.pfx = some mult) (hr : t.InRange mult) :
+    stringToBytes s.key (render t) false = .ok (.float (t.num mult) t.den) := by
+  rw [lemma_s2b_finish s t ha mult hm]
+  obtain ⟨h1, h2, h3⟩ := hr
+  simp [finish, h1, h2, h3]
+
+/-- **return_int is the ceiling** of the same exact quantity: `den·(n−1) < num ≤ den·n`.
+    Partial: inside the binary64 range, as above. -/
+theorem s2b_int_is_ceil_partial (s : Sys) (t : Text) (ha : t.Admitted s) (mult : Nat)
+    (hm : specMult s t.pfx = some mult) (hr : t.InRange mult) :
+    ∃ n : Int, stringToBytes s.key (render t) true = .ok (.int n) ∧
+      (t.den : Int) * (n - 1) < t.num mult ∧ t.num mult ≤ (t.den : Int) * n := by
+  rw [lemma_s2b_finish s t ha mult hm]
+  obtain ⟨h1, h2, h3⟩ := hr
+  exact ⟨ceilDiv (t.num mult) t.den, by simp [finish, h1, h2, h3], lemma_ceilDiv _ _ (lemma_den_pos t)⟩
+
+/-- **Outside binary64** (the code as it is; known finding N3-float-range) — when the magnitude
+    or the quantity reaches 2^1024 − 2^970 the result is `±inf`, and with `return_int` the call
+    raises OverflowError, not ValueError; a non-zero magnitude below 2^-1022 gives a denormal
+    whose digits the model does not determine. -/
+theorem s2b_out_of_range (s : Sys) (t : Text) (ha : t.Admitted s) (mult : Nat)
+    (hm : specMult s t.pfx = some mult) :
+    ((isHuge t.mant (10 ^ t.scale) = true ∨ isHuge (t.num mult) t.den = true) →
+      stringToBytes s.key (render t) false = .ok (.inf t.neg) ∧
+      stringToBytes s.key (render t) true = .error .overflowError) ∧
+    ((isHuge t.mant (10 ^ t.scale) = false ∧ isHuge (t.num mult) t.den = false ∧
+        isTiny t.mant t.den = true) →
+      ∀ ri, stringToBytes s.key (render t) ri = .ok (.tiny (t.num mult) t.den)) := by
+  constructor
+  · intro h
+    rw [lemma_s2b_finish s t ha mult hm, lemma_s2b_finish s t ha mult hm]
+    rcases h with h | h <;> simp [finish, h]
+  · rintro ⟨h1, h2, h3⟩ ri
+    rw [lemma_s2b_finish s t ha mult hm]
+    simp [finish, h1, h2, h3]
+
+/-- **The trailing newline** (known finding N3-trailing-newline, general form): a text with one
+    final newline is treated exactly like the text without it. -/
+theorem s2b_trailing_newline_accepted (s : Sys) (t : Text) (ha : t.Admitted s) (ri : Bool) :
+    stringToBytes s.key (render { t with nl := true }) ri =
+      stringToBytes s.key (render { t with nl := false }) ri := by
+  rw [lemma_s2b_render s { t with nl := true } ha ri, lemma_s2b_render s { t with nl := false } ha ri]
+  rfl
+
+/-! ### rejection and error kinds -/
+
+theorem lemma_splitSign_inv (text : List Char) :
+    ∃ sg, text = signChars sg ++ (splitSign text).2 ∧ (splitSign text).1 = decide (sg = some true) := by
+  unfold splitSign
+  split
+  · exact ⟨some true, by simp [signChars], by simp⟩
+  · exact ⟨some false, by simp [signChars], by simp⟩
+  · exact ⟨none, by simp [signChars], by simp⟩
+
+theorem lemma_mem_prefixes (s : Sys) (c : Char) (hc : s.letters.contains c = true) :
+    [c] ∈ s.prefixes ∧ (s.optI = true → [c, 'i'] ∈ s.prefixes) := by
+  have hc' : c ∈ s.letters := by simpa using hc
+  unfold Sys.prefixes
+  simp only [List.mem_flatMap]
+  constructor
+  · exact ⟨c, hc', by cases s.optI <;> simp⟩
+  · intro h; exact ⟨c, hc', by simp [h]⟩
+
+/-- a successful parse is the parse of a rendered, admitted text -/
+theorem lemma_parse_inv (s : Sys) (text d1 : List Char) (d2 : Option (List Char)) (r1 : List Char)
+    (k : UnitKind)
+    (hn : parseNumber (splitSign text).2 = some (d1, d2, r1))
+    (hu : parseUnit (parsePrefix s.letters s.optI r1).2 = some k) :
+    ∃ t : Text, t.Admitted s ∧ text = render t ∧ t.pfx = (parsePrefix s.letters s.optI r1).1 := by
+  obtain ⟨sg, hsg, _⟩ := lemma_splitSign_inv text
+  obtain ⟨hbody, hwf⟩ := lemma_parseNumber_inv _ _ _ _ hn
+  generalize hpp : parsePrefix s.letters s.optI r1 = pr at hu ⊢
+  obtain ⟨p, r2⟩ := pr
+  obtain ⟨hr1, hp⟩ := lemma_parsePrefix_inv s.letters s.optI r1 p r2 hpp
+  obtain ⟨u, nl, hr2, _⟩ := lemma_parseUnit_inv _ _ hu
+  simp only at hr2
+  refine ⟨⟨sg, d1, d2, p, u, nl⟩, ⟨hwf, ?_⟩, ?_, rfl⟩
+  · rcases hp with hp | ⟨c, hc, hp | ⟨ho, hp⟩⟩
+    · exact Or.inl hp
+    · exact Or.inr (by simp only; rw [hp]; exact (lemma_mem_prefixes s c hc).1)
+    · exact Or.inr (by simp only; rw [hp]; exact (lemma_mem_prefixes s c hc).2 ho)
+  · unfold render
+    simp only
+    rw [← hr2, ← hr1, ← hbody, ← hsg]
+
+/-- **Rejects** — in a known unit system, a text that is not `[sign]number[prefix]unit` with a
+    prefix the system admits raises ValueError.
+    Partial: `render` includes the variant with one trailing newline, which the code accepts
+    (known finding N3-trailing-newline, `s2b_trailing_newline_accepted`); every other text is covered. -/
+theorem s2b_rejects_partial (s : Sys) (text : List Char) (ri : Bool)
+    (h : ¬ ∃ t : Text, t.Admitted s ∧ text = render t) :
+    stringToBytes s.key text ri = .error .valueError := by
+  unfold stringToBytes
+  rw [(s2b_tables_complete s).1]
+  simp only
+  cases hn : parseNumber (splitSign text).2 with
+  | none => rfl
+  | some num =>
+    obtain ⟨d1, d2, r1⟩ := num
+    simp only
+    cases hu : parseUnit (parsePrefix s.letters s.optI r1).2 with
+    | none => rfl
+    | some k =>
+      obtain ⟨t, ha, ht, _⟩ := lemma_parse_inv s text d1 d2 r1 k hn hu
+      exact absurd ⟨t, ha, ht⟩ h
+
+/-- **Rejects, unknown unit system** — any key other than `IEC`, `SI`, `mixed` raises ValueError. -/
+theorem s2b_rejects_unknown_system (key text : List Char) (ri : Bool) (h : ∀ s : Sys, key ≠ s.key) :
+    stringToBytes key text ri = .error .valueError := by
+  unfold stringToBytes
+  cases hl : lookupSys key with
+  | none => rfl
+  | some x =>
+    obtain ⟨s, hs, _⟩ := lemma_lookupSys_some key x hl
+    exact absurd hs (h s)
+
+theorem lemma_finish_error (ri neg : Bool) (a b : Nat) (c : Int) (d : Nat) (e : Err)
+    (h : finish ri neg a b c d = .error e) : e = .overflowError ∧ ri = true := by
+  unfold finish at h
+  split at h
+  · split at h
+    · next hri => simp at h; exact ⟨h.symm, hri⟩
+    · simp at h
+  · split at h
+    · simp at h
+    · split at h <;> simp at h
+
+/-- **Total** — whatever the unit-system key and the text, the only errors are ValueError and, with
+    `return_int`, OverflowError; in particular never KeyError (finding D5: a prefix admitted by a
+    regex but missing from the exponent table) and never TypeError (mixed mode's `None` base).
+    Partial: the property allows ValueError only; OverflowError occurs exactly for the out-of-range
+    magnitudes of `s2b_out_of_range` (known finding N3-float-range). -/
+theorem s2b_total_partial (key text : List Char) (ri : Bool) (e : Err)
+    (h : stringToBytes key text ri = .error e) :
+    e = .valueError ∨ (e = .overflowError ∧ ri = true) := by
+  unfold stringToBytes at h
+  cases hl : lookupSys key with
+  | none => rw [hl] at h; simp at h; exact Or.inl h.symm
+  | some x =>
+    obtain ⟨s, rfl, rfl⟩ := lemma_lookupSys_some key x hl
+    rw [hl] at h
+    simp only at h
+    cases hn : parseNumber (splitSign text).2 with
+    | none => rw [hn] at h; simp at h; exact Or.inl h.symm
+    | some num =>
+      obtain ⟨d1, d2, r1⟩ := num
+      rw [hn] at h
+      simp only at h
+      cases hu : parseUnit (parsePrefix s.letters s.optI r1).2 with
+      | none => rw [hu] at h; simp at h; exact Or.inl h.symm
+      | some k =>
+        rw [hu] at h
+        simp only at h
+        obtain ⟨t, ha, _, hp⟩ := lemma_parse_inv s text d1 d2 r1 k hn hu
+        have hsome : (specMult s t.pfx).isSome = true := by
+          rcases ha.2 with h0 | h1
+          · simp [specMult, h0]
+          · exact ((s2b_tables_complete s).2 _ h1).2
+        obtain ⟨mult, hm⟩ := Option.isSome_iff_exists.mp hsome
+        have hmul := lemma_multiplier s t.pfx ha.2 mult hm
+        rw [hp] at hmul
+        unfold compute at h
+        rw [hmul] at h
+        exact Or.inr (lemma_finish_error _ _ _ _ _ _ _ h)
+
+/-- every prefix text of any of the three systems -/
+def allPrefixes : List (List Char) := Sys.iec.prefixes ++ Sys.si.prefixes ++ Sys.mixed.prefixes
+
+theorem lemma_foreign_tail (s : Sys) (p : List Char) (hp : p ∈ allPrefixes) (hn : p ∉ s.prefixes)
+    (u : UnitText) (nl : Bool) :
+    headOk (tail p u nl) = true ∧ parseUnit (parsePrefix s.letters s.optI (tail p u nl)).2 = none := by
+  have : ∀ p ∈ allPrefixes, p ∉ s.prefixes →
+      headOk (tail p u nl) = true ∧ parseUnit (parsePrefix s.letters s.optI (tail p u nl)).2 = none := by
+    cases s <;> cases u <;> cases nl <;> decide
+  exact this p hp hn
+
+/-- **Rejects, foreign prefix** — a prefix of another unit system (`k`, `ki` in IEC; `K`, `Ki`, `Mi`, …
+    in SI) raises ValueError, whatever the sign, digits, unit (and trailing newline). -/
+theorem s2b_rejects_foreign_prefix (s : Sys) (t : Text) (hwf : NumWF t.ip t.fp)
+    (hp : t.pfx ∈ allPrefixes) (hn : t.pfx ∉ s.prefixes) (ri : Bool) :
+    stringToBytes s.key (render t) ri = .error .valueError := by
+  obtain ⟨h1, h2⟩ := lemma_foreign_tail s t.pfx hp hn t.unit t.nl
+  have hnum := lemma_parseNumber_render t.ip t.fp (tail t.pfx t.unit t.nl) hwf
+    (lemma_numEnd_of_headOk _ h1)
+  have hs := lemma_splitSign_render t.sign t.ip t.fp (tail t.pfx t.unit t.nl) hwf
+  unfold stringToBytes render
+  rw [(s2b_tables_complete s).1]
+  simp only [tail] at hs hnum h2
+  simp only [hs, hnum, h2]
+
+/-! ### non-vacuity and the concrete witnesses of the findings -/
+
+/-- `16.1kB`, SI: admitted, in range; exact quantity 161·1000/10 = 16100 (Python's binary64
+    product gives 16100.000000000002 and, with return_int, 16101: known finding N3-float-rounding) -/
+example :
+    let t : Text := ⟨none, ['1', '6'], some ['1'], ['k'], .B, false⟩
+    t.Admitted .si ∧ specMult .si t.pfx = some 1000 ∧ t.InRange 1000 ∧
+    render t = ['1', '6', '.', '1', 'k', 'B'] ∧
+    stringToBytes Sys.si.key (render t) false = .ok (.float 161000 10) ∧
+    stringToBytes Sys.si.key (render t) true = .ok (.int 16100) := by
+  refine ⟨⟨by decide, by decide⟩, by decide, ⟨by decide +kernel, by decide +kernel, by decide +kernel⟩,
+    by decide, by decide +kernel, by decide +kernel⟩
+
+/-- finding D5 (fixed): `1kib` in mixed mode is 1024 bits = 128 bytes -/
+example : stringToBytes Sys.mixed.key ['1', 'k', 'i', 'b'] false = .ok (.float 1024 8) := by decide +kernel
+
+/-- `-.5Gibit`, IEC -/
+example : stringToBytes Sys.iec.key ['-', '.', '5', 'G', 'i', 'b', 'i', 't'] true = .ok (.int (-67108864)) := by
+  decide
+
+/-- known finding N3-trailing-newline: `1KB\n` is accepted -/
+example : stringToBytes Sys.iec.key ['1', 'K', 'B', '\n'] false = .ok (.float 1024 1) := by decide +kernel
+
+/-- known finding N3-float-range: a 310-digit magnitude with return_int raises OverflowError
+    (and is `inf` without), not ValueError -/
+example :
+    stringToBytes Sys.iec.key ('1' :: List.replicate 309 '0' ++ ['B']) true = .error .overflowError ∧
+    stringToBytes Sys.iec.key ('1' :: List.replicate 309 '0' ++ ['B']) false = .ok (.inf false) := by
+  decide +kernel
+
+/-- rejected texts: foreign prefix, unknown system, malformed number, trailing text -/
+example : stringToBytes Sys.iec.key ['1', 'k', 'B'] false = .error .valueError ∧
+    stringToBytes ['s', 'i'] ['1', 'B'] false = .error .valueError ∧
+    stringToBytes Sys.si.key ['1', '.', 'B'] true = .error .valueError ∧
+    stringToBytes Sys.si.key ['1', 'B', '\n', '\n'] true = .error .valueError := by decide
+
+example : (['k'] : List Char) ∈ allPrefixes ∧ (['k'] : List Char) ∉ Sys.iec.prefixes := by decide
+
 end Oslo.Units
